@@ -72,6 +72,33 @@ func randomDecoration(r *gen.R) (decoration.Decoration, string) {
 	v := reflect.ValueOf(&d).Elem()
 	var desc []string
 	pool := c03GlyphPool
+	if r.Chance(1, 3) {
+		// derived from a decoration the library handed out (which has been through Populate already): some pieces are
+		// blanked again - the documented way of asking for them to be inferred -, some are replaced, and Populate
+		// completes the value once more
+		names := decoration.RegisteredDecorationNames()
+		base := names[r.Intn(len(names))]
+		d = decoration.Named(base)
+		if nd, ok := mkDeco(base, d); !ok || nd.boxless {
+			d = decoration.ASCIIBoxSimple()
+			base = "ASCIIBoxSimple()"
+		}
+		desc = append(desc, "derived from "+base)
+		for _, name := range decoFieldNames {
+			switch r.Intn(4) {
+			case 0:
+				v.FieldByName(name).SetString("")
+				desc = append(desc, name+"=\"\"")
+			case 1:
+				if g := gen.Pick(r, pool); length.StringCells(g) == 1 {
+					v.FieldByName(name).SetString(g)
+					desc = append(desc, fmt.Sprintf("%s=%q", name, g))
+				}
+			}
+		}
+		d.Populate()
+		return d, "custom{" + strings.Join(desc, ",") + "}.Populate()"
+	}
 	for _, name := range decoFieldNames {
 		if r.Chance(1, 3) {
 			g := gen.Pick(r, pool)
@@ -171,7 +198,6 @@ func renderText(t tabular.Table, nd namedDeco) (string, error) {
 }
 
 func c03Check(c *Ctx, spec *gen.TableSpec, decos []namedDeco, st *stage, sample bool) {
-	m := textModelOf(spec)
 	t0 := tabular.New()
 	reused := texttable.Wrap(t0)
 	var b *gen.Built
@@ -191,6 +217,7 @@ func c03Check(c *Ctx, spec *gen.TableSpec, decos []namedDeco, st *stage, sample 
 	} else {
 		b = spec.Build(t0)
 	}
+	m := textModelOf(spec) // after the build: a table whose wider header was replaced says itself how many columns it has
 	widths := model.ColumnWidths(m, length.StringCells)
 	multi, wide := false, false
 	for i := range spec.Rows {
